@@ -649,7 +649,9 @@ def main(argv=None):
     tasks = [(i, s, tier, args.seed) for i, s in enumerate(specs)]
     ctx = mp.get_context("fork")
     with ctx.Pool(min(16, os.cpu_count() or 1)) as pool:
-        results = pool.map(run_task, tasks, chunksize=1)
+        # dispatch the expensive circuits first (balance); results are merged in task order below
+        cost = lambda t: len(t[1].get("state", "")) * (t[1].get("cycles", 0) + 1)
+        results = list(pool.imap_unordered(run_task, sorted(tasks, key=cost, reverse=True), chunksize=1))
     totals = {}
     for r in sorted(results, key=lambda r: r["idx"]):
         res.evaluations += r["evaluations"]
@@ -691,7 +693,10 @@ def main(argv=None):
         {"function": "PauliAdditiveCircuitNoiseFactory.construct / split_instruction_blocks / IndexedNoiseSettings.get_operation_duration",
          "contract": "for every TICK-delimited block (TICK closes its block; last block may be empty) and every qubit of the circuit exactly one "
                      "PAULI_CHANNEL_1 before and one after the block with (px,py,pz) = clamp(T1/T2 formula)(t = max configured duration over the "
-                     "block's operations, M counted with duration_mz, unconfigured operations 0) / 2), T1/T2 of that qubit; tolerance 1e-15 + 1e-9 rel",
+                     "block's operations, M counted with duration_mz, unconfigured operations 0) / 2), T1/T2 of that qubit; tolerance 1e-15 + 1e-9 rel. "
+                     "Keys name the block's longest operation and the settings look-up path; where M is the longest operation a deviation "
+                     "that equals the formula with measurements left out of the maximum is keyed ':measurement-duration-ignored' "
+                     "(restricted clause), any other deviation ':other:<path>'",
          "bound": "all enumerated triples; %d channels compared" % totals.get("channel_atoms", 0), "evaluations": totals.get("idle", 0)},
     ]
     res.probes = probes()
